@@ -244,6 +244,29 @@ func (l *ledgers) onDoChangeConfig(ni *nodeInc, ld *leader, c Config) {
 
 func (l *ledgers) onBecameLeader(ni *nodeInc) {
 	r := ni.r
+	// C02: a node that becomes leader holds every entry committed so far, at its index
+	e := &entry{}
+	for i := r.log.PrevIndex() + 1; i <= l.upto; i++ {
+		ct := l.committed[i]
+		if i > r.lastLogIndex {
+			l.run.violate("C02", "leader_lacks_committed_entry", "new_leader_lacks_committed", "%v became leader of term %d with last log index %d, but entry (%d,%d) is committed (%s)", ni, r.term, r.lastLogIndex, i, ct, l.commitBy[i])
+			return
+		}
+		if err := r.storage.getEntry(i, e); err != nil {
+			continue
+		}
+		if e.term != ct {
+			l.run.violate("C02", "leader_lacks_committed_entry", "new_leader_other_term", "%v became leader of term %d holding (%d,%d) where (%d,%d) is committed (%s)", ni, r.term, i, e.term, i, ct, l.commitBy[i])
+			return
+		}
+		if h, ok := l.commitHash[i]; ok && h != hashBytes(e.data)^uint64(e.typ)<<56 {
+			l.run.violate("C02", "leader_holds_other_entry", "new_leader_other_entry", "%v became leader of term %d holding another entry at (%d,%d) than the one that was committed (%s)", ni, r.term, i, ct, l.commitBy[i])
+			return
+		}
+	}
+	if l.upto > 0 {
+		l.run.reach("leader_checked_against_committed")
+	}
 	if !r.configs.Latest.isVoter(r.nid) {
 		l.run.violate("C11", "nonvoter_leader", "nonvoter_became_leader", "%v became leader of term %d but is not a voter in its latest configuration %v", ni, r.term, r.configs.Latest)
 	}
@@ -287,6 +310,13 @@ func (l *ledgers) onServeReturned2(ni *nodeInc) {
 			run.violate("C11", "shutdown_before_removal_committed", "removed_before_commit", "%v shut itself down as removed, but no committed configuration excludes it (newest committed: %v)", ni, c)
 			return
 		}
+	} else if !ni.stopping && ni.diskErrs > 0 {
+		// stopped because of an injected storage error: allowed; the operator restarts it later
+		run.reach("node_stopped_on_disk_error")
+		if ni.node.inc == ni {
+			ni.node.inc = nil
+		}
+		return
 	} else if !ni.stopping {
 		// a node stopped serving without being asked to and without being removed
 		err := ni.serveErr
